@@ -226,8 +226,11 @@ def run(ctx):
         "evaluations": summ.get("cases", 0),
         "steps_observed": summ.get("steps", 0),
         "distinct_nontrivial": summ.get("nontrivial", 0),
-        "rule": "cases = operation sequences (insert/delete/clear) run on the real IntervalBST with the complete tree "
-                "(items, stored max, stored height) compared with the Coq model after every step; exhaustive over all "
+        "rule": "cases = operation sequences (insert/delete/clear) run on the real IntervalBST instantiated with a payload-carrying item "
+                "type (every inserted item has a unique tag) with the complete tree (bounds, tag, stored max, stored height of every node) "
+                "compared with the Coq model after every step; duplicate-key streams (exhaustive over two keys, random over 1..3 keys) "
+                "exercise deletes among items with equal bounds, the items predicate (stored = previously stored +/- exactly the one "
+                "item, no tag twice) is judged on GetAllIntervals after every step; exhaustive over all "
                 "sequences up to the stated length on coordinates 0..2 incl. inverted intervals, then seeded random dense "
                 "sequences and pairwise-disjoint streams with every query in range, then extreme bounds (MinInt..MaxInt pool: "
                 "all one- and two-step histories over every (lo,hi) pair, random and disjoint short histories, every ordered "
